@@ -349,7 +349,7 @@ func runC20(c *core.Ctx) {
 		idx := c.Prog.Func("pdf", "(*FileInfo).indexObjects")
 		o.At(idx.Site(idx.Decl, "index"))
 		src := c.Prog.Src(idx.Decl.Body)
-		o.Require(strings.Contains(src, "index[obj.Reference]=obj") && !strings.Contains(src, "if"), "the index must be overwritten unconditionally in scan order (last definition wins)")
+		o.Shape(strings.Contains(src, "index[obj.Reference]=obj") && !strings.Contains(src, "if"), "the index must be overwritten unconditionally in scan order (last definition wins)")
 	})
 	c.Check("C20-R4", "pdf.markerRegexp", "a marker is recognised only at the start of a line and must end at a word boundary; the object alternative captures object and generation number separated by PDF white space", func(o *core.Ob) {
 		pkg := c.Prog.Pkg("pdf")
@@ -449,10 +449,10 @@ func runC20(c *core.Ctx) {
 		fn := c.Prog.Func("pdf", "(*FileInfo).makeSafeGetInt")
 		src := c.Prog.Src(fn.Decl.Body)
 		o.At(fn.Site(fn.Decl, ""))
-		o.Require(strings.Contains(src, "ifseen[ref]||len(seen)>8{return0,&MalformedFileError{"), "no visited-set/cap guard before following a reference: %s", "")
-		o.Require(strings.Contains(src, "seen[ref]=true"), "the visited-set is not updated")
-		o.Require(strings.Contains(src, "fi.doRead(fi.findObject(ref),getInt,true)"), "the length object is not read in scalar-only mode with the same bounded resolver")
-		o.Require(strings.Contains(src, "seen:=make(map[Reference]bool)"), "the visited-set is not created per resolver")
+		o.Shape(strings.Contains(src, "ifseen[ref]||len(seen)>8{return0,&MalformedFileError{"), "no visited-set/cap guard before following a reference: %s", "")
+		o.Shape(strings.Contains(src, "seen[ref]=true"), "the visited-set is not updated")
+		o.Shape(strings.Contains(src, "fi.doRead(fi.findObject(ref),getInt,true)"), "the length object is not read in scalar-only mode with the same bounded resolver")
+		o.Shape(strings.Contains(src, "seen:=make(map[Reference]bool)"), "the visited-set is not created per resolver")
 	})
 	c.Check("C20-R5", "pdf.(*FileInfo).makeSafeGetInt/fresh", "every call builds a new resolver: the function stores nothing in the FileInfo and returns a closure created in this call (a cached resolver keeps its visited-set, so the second read of a stream with an indirect /Length fails as 'circular' and is recovered with a trimmed extent)", func(o *core.Ob) {
 		fn := c.Prog.Func("pdf", "(*FileInfo).makeSafeGetInt")
